@@ -24,3 +24,33 @@ func ZZ_C19_Buffer(max int) {
 	h := p.Get(n)
 	vrt.Assert(h != g, "exclusive-ownership")
 }
+
+// ZZ_C19_BufferHandOver: one goroutine fills a pooled buffer and Puts it back while another goroutine Gets from the
+// same pool (precise model: it may receive that very buffer the moment it is in the pool): what Get returns is
+// empty, and what the new owner writes stays what it wrote - the previous owner is done with the buffer when it
+// hands it over.
+func ZZ_C19_BufferHandOver(max, n int) {
+	p := New(max)
+	seed := p.Get(n)
+	vrt.Go("old-owner", func() {
+		seed.WriteByte(0x55)
+		seed.WriteByte(0x56)
+		p.Put(seed)
+	})
+	vrt.Go("new-owner", func() {
+		g := p.Get(n)
+		vrt.Assert(g != nil && g.Cap() >= n, "cap>=n")
+		vrt.Assert(g.Len() == 0, "buffer-is-reset")
+		g.WriteByte(0x77)
+		vrt.Yield()
+		vrt.Assert(g.Len() == 1, "exclusive-ownership-under-concurrency")
+		if g.Len() == 1 {
+			vrt.Assert(g.Bytes()[0] == 0x77, "exclusive-ownership-under-concurrency")
+		}
+		if g == seed {
+			vrt.Reach("c19-buffer-handed-over")
+		}
+	})
+	vrt.Quiesce()
+	vrt.Reach("c19-handover-done")
+}
